@@ -147,6 +147,45 @@ class Editor:
         if id(owner) not in self.shared:
             self.once.append(n.text)
 
+    def repoint(self, r):
+        """one endpoint of a reference is assigned anew: a column of another table"""
+        side = self.rng.choice(['col1', 'col2'])
+        cur = getattr(r, side)
+        if len(cur) != 1:
+            raise LookupError('composite')
+        other = (r.col2 if side == 'col1' else r.col1)[0].table
+        cands = [c for t in self.db.tables if t is not cur[0].table and t is not other for c in t.columns]
+        if not cands:
+            raise LookupError('no third table')
+        self.set(r, side, [self.rng.choice(cands)])
+
+    def move_column(self, r):
+        """the column at one end of a reference moves to another table (delete_column + add_column)"""
+        side = self.rng.choice(['col1', 'col2'])
+        cur = getattr(r, side)
+        if len(cur) != 1:
+            raise LookupError('composite')
+        col = cur[0]
+        src = col.table
+        other = (r.col2 if side == 'col1' else r.col1)[0].table
+        dests = [t for t in self.db.tables if t is not src and t is not other and all(c.name != col.name for c in t.columns)]
+        if not dests or len(src.columns) < 2 or any(col in ix.subjects for ix in src.indexes) or \
+                any(q is not r and (col in q.col1 or col in q.col2) for q in self.db.refs):
+            raise LookupError('not movable')
+        dst = self.rng.choice(dests)
+        src.delete_column(col)
+        dst.add_column(col)
+
+    def add_derived_table(self, t):
+        """a new table that is given the NOTE OBJECT of an existing one: each table ends up with a note of its own"""
+        from pydbml.classes import Table, Column
+        if t.note is not None and t.note.text in self.once:
+            self.once.remove(t.note.text)          # the copy repeats this text on purpose
+        nt = Table(self.tok('dt'), schema=t.schema, note=t.note, columns=[Column(self.tok('dc'), 'int')])
+        self.db.add(nt)
+        if nt.note is t.note:
+            self.lost.append('Table(note=<another table\'s Note object>): the two tables share one Note object')
+
     def add_derived_enum(self, e):
         """a new enum made from the items of an existing one: the item OBJECTS are shared on purpose (whatever is written
         into one of them shows in both enums), the two item LISTS are not (an item added later belongs to one enum)"""
@@ -235,6 +274,7 @@ class Editor:
                     ('table-note-replace', lambda: self.set(t, 'note', Note(self.tok('note ')))),
                     ('table-note-inplace', lambda: self.set(t.note, 'text', self.tok('note '))),
                     ('table-note-writeback', lambda: self.writeback(t)),
+                    ('add-derived-table', lambda: self.add_derived_table(t)),
                     ('table-color', lambda: self.set(t, 'header_color', rng.choice([None, '#abc', '#112233']))),
                     ('table-comment', lambda: self.set(t, 'comment', rng.choice([None, self.tok('cm ')]))),
                     ('add-column', lambda: t.add_column(Column(self.tok('nc'), rng.choice(['int', 'text']), pk=rng.random() < 0.2,
@@ -283,7 +323,9 @@ class Editor:
                     ('ref-name', lambda: self.set(r_, 'name', rng.choice([None, '', self.tok('rn')]))),
                     ('ref-actions', lambda: (self.set(r_, 'on_update', rng.choice([None, 'cascade', 'set null'])),
                                              self.set(r_, 'on_delete', rng.choice([None, 'restrict', 'no action'])))),
-                    ('ref-comment', lambda: self.set(r_, 'comment', rng.choice([None, self.tok('rc ')])))]
+                    ('ref-comment', lambda: self.set(r_, 'comment', rng.choice([None, self.tok('rc ')]))),
+                    ('ref-repoint', lambda: self.repoint(r_)),
+                    ('move-referenced-column', lambda: self.move_column(r_))]
         if db.table_groups:
             g = rng.choice(db.table_groups)
             out += [('rename-group', rename(g, 'name')), ('group-color', lambda: self.set(g, 'color', rng.choice([None, '#fff'])))]
